@@ -101,22 +101,36 @@ func encodeAndSolve(p *Prog, fns []*ssa.Function, opts SolveOpts, stats *SolveSt
 					e.failed = fmt.Sprint(r)
 				}
 			}()
-			e.Encode()
+			e.analyzeCFG()
 		}()
 		encs = append(encs, e)
 	}
+	// Encoding touches shared Prog tables (ids, key registry): serialise encoders with a lock,
+	// run the solvers in parallel.
 	var wg sync.WaitGroup
 	sem := make(chan struct{}, runtime.NumCPU())
 	for _, e := range encs {
-		if e.failed != "" {
-			continue
-		}
 		wg.Add(1)
 		go func(e *Enc) {
 			defer wg.Done()
 			sem <- struct{}{}
 			defer func() { <-sem }()
+			defer func() {
+				if r := recover(); r != nil {
+					e.failed = fmt.Sprint(r)
+				}
+			}()
+			t0 := time.Now()
+			if len(e.loopList) > 0 {
+				e.Houdini(opts)
+			} else {
+				e.Encode()
+			}
+			t1 := time.Now()
 			SolveFunction(e, opts, stats)
+			if os.Getenv("PVC_VERBOSE") != "" && time.Since(t0) > 2*time.Second {
+				fmt.Fprintf(os.Stderr, "slow: %s houdini=%.1fs solve=%.1fs obs=%d\n", e.name, t1.Sub(t0).Seconds(), time.Since(t1).Seconds(), len(e.obs))
+			}
 		}(e)
 	}
 	wg.Wait()
@@ -192,7 +206,3 @@ func cmdRun(args []string) {
 	fmt.Printf("functions=%d obligations=%d discharged=%d  wall=%.1fs solver=%v\n", len(encs), total, ok, time.Since(t0).Seconds(), stats.SolverSec)
 }
 
-func cmdCheck(args []string) {
-	fmt.Fprintln(os.Stderr, "check: not yet implemented")
-	os.Exit(2)
-}
